@@ -81,7 +81,7 @@ impl Property for C15 {
     fn exhaustive_subspaces(&self, _tier: Tier) -> Vec<String> {
         vec![
             "every position of a single offending character in valid strings of every length <=min(capacity+1,140) characters, per type and radix, for 5 offending characters (ASCII letter/digit, +, -, 2-byte, 4-byte)".into(),
-            "all binary strings of length <=10 on all 19 types; all hex strings of length <=2".into(),
+            "all binary strings of length <=10 on all 20 types; all hex strings of length <=2".into(),
         ]
     }
     fn enumerate(&self, _tier: Tier, sh: &mut Shard, f: &mut dyn FnMut(C15Case) -> bool) {
